@@ -97,8 +97,29 @@ theorem chained_vote_sound (s : Store) (lock b : Block) (h : chainedVote s lock 
     rw [hq] at h
     simp only at h
     split at h
-    · rename_i hv; exact Or.inr ⟨q, rfl, hv⟩
-    · exact Or.inl (extends_sound s b lock h)
+    · cases h
+    · split at h
+      · rename_i hv; exact Or.inr ⟨q, rfl, hv⟩
+      · exact Or.inl (extends_sound s b lock h)
+
+/-- A vote is only cast when the block to lock on is known (repaired code): the replica that votes
+can and does update its lock in `CommitRule`. -/
+theorem chained_vote_lock_known (s : Store) (lock b : Block) (h : chainedVote s lock b = true) :
+    LockTargetKnown s b := by
+  unfold chainedVote bcGet at h
+  intro j hj
+  unfold justified at hj
+  rw [hj] at h
+  simp only at h
+  split at h
+  · cases h
+  · rename_i hk
+    by_cases h0 : j.qcHash = 0
+    · exact Or.inl h0
+    · refine Or.inr ?_
+      cases hs : s j.qcHash with
+      | none => exact absurd ⟨h0, by simp [hs]⟩ hk
+      | some _ => rfl
 
 /- FULL STATEMENT (false of the code, see `chained_vote_eq_spec_counterexample`):
      ∀ s lock b, chainedVote s lock b = true ↔ ChainedVotes s lock b
@@ -107,7 +128,7 @@ theorem chained_vote_sound (s : Store) (lock b : Block) (h : chainedVote s lock 
 /-- Vote decision = `safeNode` on every forest whose parent links increase the view (names in
 creation order, names identify blocks). -/
 theorem chained_vote_eq_spec_partial (s : Store) (lock b : Block)
-    (hac : Acyclic s) (hg : ViewsGrow s b) (hn : Names s b lock) :
+    (hac : Acyclic s) (hg : ViewsGrow s b) (hn : Names s b lock) (hk : LockTargetKnown s b) :
     chainedVote s lock b = true ↔ ChainedVotes s lock b := by
   constructor
   · exact chained_vote_sound s lock b
@@ -122,6 +143,15 @@ theorem chained_vote_eq_spec_partial (s : Store) (lock b : Block)
       | inr h => obtain ⟨j, hj, _⟩ := h; rw [hq] at hj; cases hj
     | some q =>
       simp only
+      have hkq := hk q (by unfold justified; exact hq)
+      have hno : ¬(q.qcHash ≠ 0 ∧ (s q.qcHash).isNone = true) := by
+        rintro ⟨h0, hnone⟩
+        rcases hkq with h | h
+        · exact h0 h
+        · cases hs : s q.qcHash with
+          | none => simp [hs] at h
+          | some _ => simp [hs] at hnone
+      simp only [hno, ↓reduceIte]
       split
       · rfl
       · rename_i hv
@@ -303,8 +333,8 @@ theorem simple_lock_eq_spec (s : Store) (locked b : Block) :
         split <;> rfl
 
 theorem simple_vote_eq_spec (s : Store) (locked : Block) (cur : Nat) (b : Block) :
-    simpleVote s locked cur b = true ↔ SimpleVotes s locked cur b := by
-  unfold simpleVote SimpleVotes justified bcGet
+    simpleVote s locked cur b = true ↔ SimpleVotes s locked cur b ∧ LockTargetKnown s b := by
+  unfold simpleVote SimpleVotes LockTargetKnown justified bcGet
   by_cases hv : b.view < cur
   · simp only [hv, ↓reduceIte, Bool.false_eq_true, false_iff]
     intro h; omega
@@ -313,11 +343,29 @@ theorem simple_vote_eq_spec (s : Store) (locked : Block) (cur : Nat) (b : Block)
     | none => simp
     | some p =>
       simp only
-      by_cases hp : p.view < locked.view
-      · simp only [hp, ↓reduceIte, Bool.false_eq_true, false_iff]
-        rintro ⟨_, q, hq', hge⟩; cases hq'; omega
-      · simp only [hp, ↓reduceIte, true_iff]
-        exact ⟨by omega, p, rfl, by omega⟩
+      by_cases hk : p.qcHash ≠ 0 ∧ (s p.qcHash).isNone = true
+      · rw [if_pos hk]
+        simp only [Bool.false_eq_true, false_iff]
+        rintro ⟨_, hl⟩
+        rcases hl p rfl with h | h
+        · exact hk.1 h
+        · cases hs : s p.qcHash with
+          | none => simp [hs] at h
+          | some _ => simp [hs] at hk
+      · have hl : ∀ j, some p = some j → j.qcHash = 0 ∨ (s j.qcHash).isSome = true := by
+          intro j hj; cases hj
+          by_cases h0 : p.qcHash = 0
+          · exact Or.inl h0
+          · refine Or.inr ?_
+            cases hs : s p.qcHash with
+            | none => exact absurd ⟨h0, by simp [hs]⟩ hk
+            | some _ => rfl
+        rw [if_neg hk]
+        by_cases hp : p.view < locked.view
+        · simp only [hp, ↓reduceIte, Bool.false_eq_true, false_iff]
+          rintro ⟨⟨_, q, hq', hge⟩, _⟩; cases hq'; omega
+        · simp only [hp, ↓reduceIte, true_iff]
+          exact ⟨⟨by omega, p, rfl, by omega⟩, hl⟩
 
 /-- The condition as it stood before fixes/C04-simple-consecutive.diff
 (`ok && ggp.View()+2 == p.View()`). -/
@@ -379,12 +427,13 @@ theorem chain_length_certificates : Kind.chainLength .chained = 3 ∧ Kind.chain
 /-! ## Every presentation order, every reachable lock state -/
 
 /-- Vote exactness holds without further conditions for simplified HotStuff and Fast-HotStuff's
-happy path; where `Blockchain.Extends` is consulted it needs parent links that increase the view. -/
+happy path; where `Blockchain.Extends` is consulted it needs parent links that increase the view;
+chained and simplified HotStuff abstain unless the block a vote obliges them to lock on is known. -/
 def Regular (k : Kind) (s : Store) (lock b : Block) (agg : Bool) : Prop :=
   match k, agg with
-  | .simple, _ => True
+  | .simple, _ => LockTargetKnown s b
   | .fast, false => True
-  | .chained, _ => Acyclic s ∧ ViewsGrow s b ∧ Names s b lock
+  | .chained, _ => (Acyclic s ∧ ViewsGrow s b ∧ Names s b lock) ∧ LockTargetKnown s b
   | .fast, true => Acyclic s ∧ ViewsGrow s b ∧ ∀ hb, s b.qcHash = some hb → Names s b hb
 
 /-- the model's answer to one operation is the one the published rules prescribe in state `st` -/
@@ -414,7 +463,7 @@ theorem vote_rule_sound (st : RState) (cur : Nat) (b : Block) (agg : Bool)
     cases agg with
     | true => simpa [Votes] using fast_vote_agg_sound _ _ _ h
     | false => simpa [Votes] using (fast_vote_plain_eq_spec _ _ _).1 h
-  | simple => rw [hk] at h; exact (simple_vote_eq_spec _ _ _ _).1 h
+  | simple => rw [hk] at h; exact ((simple_vote_eq_spec _ _ _ _).1 h).1
 
 theorem vote_rule_complete_partial (st : RState) (cur : Nat) (b : Block) (agg : Bool)
     (hr : Regular st.kind st.store st.lock b agg)
@@ -423,9 +472,9 @@ theorem vote_rule_complete_partial (st : RState) (cur : Nat) (b : Block) (agg : 
   cases hk : st.kind with
   | chained =>
     rw [hk] at h hr
-    obtain ⟨h1, h2, h3⟩ : Acyclic st.store ∧ ViewsGrow st.store b ∧ Names st.store b st.lock := by
+    obtain ⟨⟨h1, h2, h3⟩, h4⟩ : (Acyclic st.store ∧ ViewsGrow st.store b ∧ Names st.store b st.lock) ∧ LockTargetKnown st.store b := by
       cases agg <;> exact hr
-    exact (chained_vote_eq_spec_partial _ _ _ h1 h2 h3).2 h
+    exact (chained_vote_eq_spec_partial _ _ _ h1 h2 h3 h4).2 h
   | fast =>
     rw [hk] at h hr
     cases agg with
@@ -433,7 +482,10 @@ theorem vote_rule_complete_partial (st : RState) (cur : Nat) (b : Block) (agg : 
       obtain ⟨h1, h2, h3⟩ := hr
       exact (fast_vote_agg_eq_spec_partial _ _ _ h1 h2 h3).2 (by simpa [Votes] using h)
     | false => exact (fast_vote_plain_eq_spec _ _ _).2 (by simpa [Votes] using h)
-  | simple => rw [hk] at h; exact (simple_vote_eq_spec _ _ _ _).2 h
+  | simple =>
+    rw [hk] at h hr
+    have hl : LockTargetKnown st.store b := by cases agg <;> exact hr
+    exact (simple_vote_eq_spec _ _ _ _).2 ⟨h, hl⟩
 
 /-- commit decision and new lock of the dispatching rule equal the specification's -/
 theorem commit_rule_eq_spec (st : RState) (b : Block) (hz : st.store 0 = none) :
